@@ -22,18 +22,23 @@ NextCount(n, o) == CASE o \in {"ok", "skip", "requeue", "startlong"} -> 0
                      [] o = "reseterr" -> 1          \* the back-off was reset right before this failure
                      [] OTHER -> n
 
+(* a requeue request without an interval is no request: RequeueError(err, 0) is a plain failure (exponential      *)
+(* back-off), RequeueError(nil, 0) a plain success                                                                  *)
+NormO(o, d) == IF o = "requeueErr" /\ d = 0 THEN "err" ELSE IF o = "requeue" /\ d = 0 THEN "ok" ELSE o
+
 CONSTANTS MaxLen, Delays
 VARIABLES n, hist
 vars == <<n, hist>>
 Init == n = 0 /\ hist = <<>>
 Step(o, d) == /\ Len(hist) < MaxLen
-              /\ n' = NextCount(n, o)
+              /\ n' = NextCount(n, NormO(o, d))
               /\ hist' = Append(hist, [o |-> o, d |-> d])
 Next == \E o \in Outcomes, d \in Delays : Step(o, IF o \in {"requeue", "requeueErr"} THEN d ELSE 0)
 Spec == Init /\ [][Next]_vars
 
 EnvelopeMonotone == \A k \in 0..13 : Lo(k) <= Lo(k + 1) /\ Hi(k) <= Hi(k + 1) /\ Lo(k) < Hi(k) /\ Hi(k) <= 90002
 CountBounded == n <= MaxLen
-ResetOnSuccess == [][(hist' # hist /\ hist'[Len(hist')].o \in {"ok", "skip", "requeue"}) => n' = 0]_vars
-GrowsOnFailure == [][(hist' # hist /\ hist'[Len(hist')].o \in {"err", "panic"}) => n' = n + 1]_vars
+LastO == NormO(hist'[Len(hist')].o, hist'[Len(hist')].d)
+ResetOnSuccess == [][(hist' # hist /\ LastO \in {"ok", "skip", "requeue"}) => n' = 0]_vars
+GrowsOnFailure == [][(hist' # hist /\ LastO \in {"err", "panic"}) => n' = n + 1]_vars
 =============================================================================
